@@ -43,6 +43,9 @@ extern __CPROVER_size_t verif_pts[VERIF_NPTS];
 #ifndef VERIF_FN
 #define VERIF_FN 1
 #endif
+#ifndef VERIF_BRANCH
+#define VERIF_BRANCH 0
+#endif
 #ifndef IMP
 #define IMP(a, b) (!(a) || (b))
 #endif
@@ -354,6 +357,45 @@ void harness (void)
 #else
   if (ret && pos == at0) REACH ("already-aligned");
 #endif
+#endif
+
+#elif VERIF_FN == 25   /* _dbus_string_replace_len: "Replaces a segment of dest string with a segment of source string. @returns FALSE if not enough memory" */
+  DBusRealString SRC; mk_str (&SRC);
+  SNAP (&SRC, s);
+  int start = nondet_int (), n = nondet_int (), at = nondet_int (), rl = nondet_int ();
+  __CPROVER_assume (start >= 0 && start <= slen0 && n >= 0 && n <= slen0 - start && at >= 0 && at <= dlen0 && rl >= 0 && rl <= dlen0 - at);
+#if VERIF_BRANCH == 1
+  __CPROVER_assume (n > rl);          /* the new text is longer: the only branch that allocates */
+#elif VERIF_BRANCH == 2
+  __CPROVER_assume (n < rl);
+#elif VERIF_BRANCH == 3
+  __CPROVER_assume (n == rl);
+#endif
+  int j = nondet_int (); __CPROVER_assume (j >= 0 && (n == 0 ? j == 0 : j < n)); unsigned char sj = (n > 0) ? SRC.str[start + j] : 0;
+  long newlen = (long) dlen0 - rl + n;
+  _Bool fits = newlen <= MAXLEN;
+  /* instantiation points: old and new coordinates of k (the shrinking branch reads the old position after the overwrite), both NULs, the inserted byte */
+  if (fits) { PT (0, newlen); PT (1, dk); PT (2, dk < at ? dk : (long) dk - rl + n); PT (3, (long) at + j); PT (4, dlen0); }
+  ret = _dbus_string_replace_len ((const DBusString *) &SRC, start, n, (DBusString *) &S, at, rl);
+#define WHO "_dbus_string_replace_len"
+  ENS_OK (&S, WHO " (dest)");
+  ENS_OK (&SRC, WHO " (source)");
+  POST (IMP (!fits, !ret), WHO ": result longer than the maximum => FALSE");
+  POST (IMP (n <= rl, ret), WHO ": replacing by something not longer needs no memory and cannot fail");
+  POST (IMP (ret, S.len == newlen && S.str[S.len] == 0), WHO ": TRUE => dest length = old - replace_len + len, NUL terminated");
+  POST (IMP (ret && dk < at, S.str[dk] == doldk), WHO ": TRUE => dest bytes before replace_at unchanged");
+  POST (IMP (ret && dk >= at + rl, S.str[dk - rl + n] == doldk), WHO ": TRUE => dest bytes behind the replaced segment (incl. NUL) keep their order, shifted by len - replace_len");
+  POST (IMP (ret && n > 0, S.str[at + j] == sj), WHO ": TRUE => the replaced segment now reads source[start..start+len) in order");
+  POST (IMP (!ret, UNCHANGED (&S, d)), WHO ": FALSE => dest length and every byte unchanged (also inside the segment that was to be replaced)");
+  POST (UNCHANGED (&SRC, s), WHO ": the source is never modified (either outcome)");
+#if VERIF_BRANCH == 0 || VERIF_BRANCH == 1
+  if (ret && n > rl && rl > 0) REACH ("grown"); if (!ret && fits) REACH ("oom");
+#endif
+#if VERIF_BRANCH == 0 || VERIF_BRANCH == 2
+  if (ret && n < rl && n > 0) REACH ("shrunk");
+#endif
+#if VERIF_BRANCH == 0 || VERIF_BRANCH == 3
+  if (ret && n == rl && n > 0) REACH ("same-size");
 #endif
 
 #elif VERIF_FN == 24   /* _dbus_string_alloc_space: "Preallocate extra_bytes such that a future lengthening ... is guaranteed to succeed" */
